@@ -325,7 +325,7 @@ def evaluate(cfg, wname, opt):
         if v3 and {sig.split("/")[2] for sig, _ in v3} == kinds:
             opt2 = {}
     v4, _ = evaluate_raw(cur, wname, opt2)
-    return [(sig + ("/opt:" + "+".join(sorted(opt2)) if opt2 else ""), det) for sig, det in v4], out
+    return [(sig + ("/opt:" + "+".join(sorted(opt2)) if opt2 and not sig.endswith(":style-named-like-a-region") else ""), det) for sig, det in v4], out
 
 
 def base_cfg():
